@@ -58,35 +58,80 @@ class World:
         h = self.state_fn() if self.state_fn else None
         return (where, self.sync, blocked_on, pools, h)
 
-    def sync_point(self, where, blocked_on=None):
+    def sync_point(self, where, blocked_on=None, until=None):
         """Called at every main-thread synchronisation. While the explorer
         picks pool events they are executed; returns when main proceeds (or,
-        if blocked_on is given, when that future is done)."""
+        if blocked_on / until is given, when that future is done / that
+        predicate holds)."""
         self.sync += 1
+        if blocked_on is not None:
+            until = blocked_on.done
+        tag = getattr(blocked_on, "tid", None if until is None else "until")
         while True:
             ev = self.events()
-            if blocked_on is not None and blocked_on.done():
-                blocked_on = None
-            can_proceed = blocked_on is None
+            can_proceed = until is None or until()
             if not ev and can_proceed:
                 return
             if not ev and not can_proceed:
-                raise Deadlock("main waits for task %r but no pool event is "
-                               "enabled" % (blocked_on.tid,))
+                raise Deadlock("main waits at %s (%r) but no pool event is "
+                               "enabled" % (where, tag))
             n = len(ev) + (1 if can_proceed else 0)
             labels = (["main"] if can_proceed else []) + [
                 "%s%d.%d" % (k, self.pools.index(p), t.tid)
                 for k, p, t in ev]
             c = self.ctx.choose(
                 n, label="%s:%s" % (where, "|".join(labels)), default=0,
-                cost=0, state=self.state(where, getattr(
-                    blocked_on, "tid", None)))
+                cost=0, state=self.state(where, tag if not can_proceed
+                                         else None))
             if can_proceed:
                 if c == 0:
                     return
                 c -= 1
             kind, pool, task = ev[c]
             pool.fire(kind, task)
+
+    # -- controlled versions of the module-level waiting functions ----------
+    def as_completed(self, fs, timeout=None):
+        pending = list(fs)
+        while pending:
+            self.sync_point("as_completed",
+                            until=lambda: any(f.done() for f in pending))
+            done = [f for f in pending if f.done()]
+            for f in done:
+                pending.remove(f)
+                yield f
+
+    def wait(self, fs, timeout=None, return_when="ALL_COMPLETED"):
+        import concurrent.futures as cf
+        fs = list(fs)
+
+        def ready():
+            d = [f for f in fs if f.done()]
+            if return_when == cf.FIRST_COMPLETED:
+                return bool(d)
+            if return_when == cf.FIRST_EXCEPTION:
+                return len(d) == len(fs) or any(
+                    not f.cancelled() and Future.exception(f, 0) is not None
+                    for f in d)
+            return len(d) == len(fs)
+        self.sync_point("wait", until=ready)
+        d = {f for f in fs if f.done()}
+        return cf._base.DoneAndNotDoneFutures(d, set(fs) - d)
+
+    def install_waiters(self):
+        """Rebinds concurrent.futures.as_completed / wait (which block on
+        real condition variables) to the controlled versions; returns a
+        function that restores them."""
+        import concurrent.futures as cf
+        saved = (cf.as_completed, cf.wait, cf._base.as_completed,
+                 cf._base.wait)
+        cf.as_completed = cf._base.as_completed = self.as_completed
+        cf.wait = cf._base.wait = self.wait
+
+        def restore():
+            (cf.as_completed, cf.wait, cf._base.as_completed,
+             cf._base.wait) = saved
+        return restore
 
 
 class Task(Future):
